@@ -212,17 +212,21 @@ def inEllipsisLoop : Nat → Word → List Item → List MatchEl → Nat → Seg
     else do
       let r ← inSeq fuel w states caps si pos b
       if r.ok then pure r
-      else inEllipsisLoop fuel w states r.caps si (pos.increment w) b
+      -- `captures.truncate(back_caps)`: a failed attempt leaves no captures behind
+      else inEllipsisLoop fuel w states caps si (pos.increment w) b
 
-/-- `while *state_index < states.len() { if !input_match_item(..)? { m = false; break } *state_index += 1 }`
-    (note the extra increment after an item that already advanced the index) -/
+/-- `while *state_index < states.len() { if past the end and not a boundary { m = false; break }
+    if !input_match_item(..)? { m = false; break } }` -/
 def inSeq : Nat → Word → List Item → List MatchEl → Nat → SegPos → Binds → Res IR
   | 0, _, _, _, _, _, _ => .outOfFuel "input sequence"
   | fuel + 1, w, states, caps, si, pos, b =>
-    if si < states.length then do
-      let r ← inMatchItem fuel w states caps si pos b
-      if !r.ok then pure r
-      else inSeq fuel w states r.caps (r.si + 1) r.pos r.b
+    if si < states.length then
+      -- past the end of the word only a boundary can match
+      if !w.inB pos && !(match states[si]? with | some .syllBound => true | _ => false) then .ok ⟨false, caps, si, pos, b⟩
+      else do
+        let r ← inMatchItem fuel w states caps si pos b
+        if !r.ok then pure r
+        else inSeq fuel w states r.caps r.si r.pos r.b
     else .ok ⟨true, caps, si, pos, b⟩
 
 end
